@@ -165,6 +165,9 @@ def run(ck):
         ck.mc("MC_ScalarMul", "MC_ScalarMul_29_all.cfg", note="order-40 group, pair phase from every (point, scalar)", workers=12, timeout=3000)
         ck.mc("MC_ScalarMul", "MC_ScalarMul_101.cfg", note="order-88 group", workers=12, timeout=3000)
     ck.apalache("AP_Recode16", 65, "radix-16 recoding: reconstruction, digit ranges, top digit <= 8 for ALL scalars below 2^255")
+    for w in (5, 6, 7, 8):
+        ck.apalache("AP_Radix2w", 53, "radix-2^%d recoding (as_radix_2w): reconstruction, digit ranges, final carry for ALL scalars below 2^255" % w, cinit="C%d" % w)
+    ck.apalache("AP_Radix2w", 33, "kept counterexample: for w = 8 the final carry can be 1 (the 33rd digit is needed)", cinit="C8", inv="InvNoExtraDigit", expect_violation=True)
     for w, c in ((5, "C5"), (8, "C8")):
         ck.apalache("AP_NafInd", 0, "NAF(%d): the invariant holds initially" % w, cinit=c, init="Init")
         ck.apalache("AP_NafInd", 1, "NAF(%d): val = rec + carry*wgt, digits odd and below 2^(w-1) is INDUCTIVE (any number of steps, any scalar)" % w, cinit=c, init="IndInit")
